@@ -211,7 +211,53 @@ def load_known():
     return json.load(open(KNOWN))
 
 
-_HELPERS = {"intval": intval, "nwords": nwords, "len": len, "abs": abs, "any": any, "all": all, "min": min, "max": max,
+def _rne_shift(m, k):
+    """m / 2^k rounded to nearest, ties to even (k may be <= 0)"""
+    if k <= 0:
+        return m << -k
+    q, r, h = m >> k, m & ((1 << k) - 1), 1 << (k - 1)
+    return q + 1 if (r > h or (r == h and q & 1)) else q
+
+
+def ieee_double_rounded(sig, exp, ft):
+    """Magnitude bits of the f32/f64 that results from rounding |sig| * 2^exp FIRST to 24/53 bits and THEN to the
+    target's (subnormal) grid, both half-even: the behaviour finding F66 describes.  Returns the set of magnitude
+    bit patterns that F66 (and for f32 the F61 threshold, which flushes (2^-150, 2^-149) to zero) explains."""
+    M, emin = (24, -149) if ft == "f32" else (53, -1074)
+    m = abs(sig)
+    if m == 0:
+        return {0}
+    k = m.bit_length() - M
+    if k > 0:
+        m, exp = _rne_shift(m, k), exp + k
+    top = m.bit_length() - 1 + exp
+    u = max(emin, top - (M - 1))
+    out = {_rne_shift(m, u - exp)}           # magnitude bits when u == emin (also right for the carry into the first normal binade)
+    if ft == "f32" and top == -150 and m & (m - 1):
+        out.add(0)
+    return out
+
+
+def f66_explains(e):
+    """the failing to_f event is the double rounding of F66: binary FBig/Repr source below the normal range and every
+    observed result is the double-rounded one (any other wrong result in that range is NOT this finding)"""
+    x = e["x"]
+    if x.get("t") not in ("F", "FR") or x.get("base") != 2:
+        return False
+    ft = e["ft"]
+    W = 32 if ft == "f32" else 64
+    allowed = ieee_double_rounded(intval(x["f"]["sig"]), x["f"]["exp"], ft)
+    for o in e.get("outs", []):
+        out = o["out"]
+        if out.get("k") != "ok" or "b" not in out:
+            return False
+        bits = sum(c << (16 * i) for i, c in enumerate(out["b"])) & ((1 << (W - 1)) - 1)
+        if bits not in allowed:
+            return False
+    return True
+
+
+_HELPERS = {"f66_explains": f66_explains, "intval": intval, "nwords": nwords, "len": len, "abs": abs, "any": any, "all": all, "min": min, "max": max,
             "re": re, "int": int, "str": str, "isinstance": isinstance, "dict": dict, "list": list, "set": set, "sorted": sorted}
 
 
